@@ -64,7 +64,7 @@ VARIABLES l,        \* scenario index
           st        \* verdict state of the scenario just judged (kept small)
 vars == <<l, st>>
 
-Init0 == [game |-> B!NewBoard(Decode(StartFen).pos, 0, 1), lastcmd |-> "", lastline |-> <<>>,
+Init0 == [game |-> B!NewBoard(Decode(StartFen).pos, 0, 1), nextgame |-> B!NewBoard(Decode(StartFen).pos, 0, 1), lastcmd |-> "", lastline |-> <<>>,
           pending |-> FALSE, cur |-> 0, launched |-> 0, infinite |-> FALSE, stopped |-> FALSE,
           ended |-> {}, moves |-> [k \in {} |-> ""], winners |-> <<>>, asked |-> 0, readyok |-> 0,
           exited |-> FALSE, mayexit |-> FALSE, fails |-> {}, bookgo |-> FALSE, nbest |-> 0, ngo |-> 0, unsettled |-> FALSE]
@@ -77,7 +77,9 @@ Step(s, ev, stub) ==
   CASE nm = "uci.loop.cmd" ->
          LET t == Tokens(a[1]) c == IF Len(t) = 0 THEN "" ELSE t[1] IN
          [s EXCEPT !.lastcmd = c, !.lastline = t,
-                   !.game = IF IsPosition(t) THEN Describe(t) ELSE @,
+                   \* the game changes when the loop starts processing the command (its ensureInactive step),
+                   \* not when it merely dequeues it: a completion decided in between still belongs to the old game
+                   !.nextgame = IF IsPosition(t) THEN Describe(t) ELSE s.game,
                    !.stopped = IF c = "stop" /\ s.pending THEN TRUE ELSE @,
                    !.asked = IF c = "isready" THEN @ + 1 ELSE @,
                    !.mayexit = IF c = "quit" \/ (c = "position" /\ ~IsPosition(t)) \/ (c = "go" /\ ~GoOK(t)) THEN TRUE ELSE @,
@@ -85,7 +87,7 @@ Step(s, ev, stub) ==
                    !.ngo = IF c = "go" THEN @ + 1 ELSE @]
     [] nm = "uci.inactive.begin" ->
          \* the loop starts processing position / go / ucinewgame (or shuts down): the pending go is superseded
-         [s EXCEPT !.pending = FALSE, !.stopped = FALSE]
+         [s EXCEPT !.pending = FALSE, !.stopped = FALSE, !.game = IF s.lastcmd = "position" THEN s.nextgame ELSE @]
     [] nm = "engine.analyze.launched" -> [s EXCEPT !.launched = @ + 1]
     [] nm = "uci.go.activated" ->
          [s EXCEPT !.pending = TRUE, !.cur = s.launched, !.infinite = Has(s.lastline, "infinite"), !.stopped = FALSE, !.bookgo = FALSE]
